@@ -269,6 +269,11 @@ def c11_models(tier):
     # a no-trade threshold: the old lead is closed at the roll even when its weight is below the threshold
     ms.append(full_model("roll-small", cs, ["S1", "CH"], grid, ev, [{"CH": H}, {"CH": F(1, 32)}, {"CH": F(-1, 32)}], lats=(0,),
                          delays=(0,), fees="free", thr=F(1, 16), maxsteps=5, **kw))
+    # one continuous front-month series: the quotes are keyed by the chain itself and land in the book of whatever contract
+    # is the lead when they are stamped (the first quote after a last-trading instant opens the new lead's book)
+    pk = {"CH": [12, 12, 16, 12, 12, 8, 8], "S1": [8, 8, 12, 12, 8, 8, 12]}     # the chain-keyed quote comes first at every stamp
+    evk = bars(grid, pk, {"S1": 0, "CH": 4}) + ev[-3:]
+    ms.append(full_model("roll-chainkey", cs, ["S1", "CH"], grid, evk, tg[:3], lats=(0,), delays=(0,), fees="free", maxsteps=5, **kw))
     # whole lots only: a targeted line whose imbalance is less than one lot (nothing to trade there) sits next to the chain
     # at the roll; the old lead is still closed and the target re-established in the new lead
     pw = {"S1": [8, 8, 8, 8, 8, 8, 8], "H19": [12, 12, 12, 12, 12, None, None], "M19": [12, 12, 12, 12, 16, 12, 12],
